@@ -26,7 +26,8 @@ META = {
             "the cards is followed through load_field: the grid survives, the logarithmic flag does not (known finding). (4) "
             "DECLARED = USED: commons.interpolator is partially evaluated with a symbolic card: the dispatcher is built from the "
             "card's grid, interpolation_is_log and polynomial degree; every field of the cards is read somewhere in the runner's "
-            "call-graph closure (a declared setting nobody reads cannot be the one used).",
+            "call-graph closure (a declared setting nobody reads cannot be the one used)."
+            " parts._managers evaluated for several cards in ONE evaluator: the interpolator carries the grid, flag and degree of the card of that call.",
     "note": "Decided on representatives of each kind and on one real card section; complete theory / operator cards are not "
             "evaluated (list-subclass references and NumPy grid construction are outside the evaluator's model).",
     "technique": "partial evaluation of raw_field / load_field / from_dict on run-time types (host types, typing constructs, repository classes, evaluated annotations) over representatives of every value kind; PE of the interpolator construction; configuration liveness over the call graph",
